@@ -61,3 +61,56 @@ package varmq
 //@   props C17
 //@   modifies m.submitted, m.completed, m.successful, m.failed
 //@   ensures m.submitted == 0 && m.completed == 0 && m.successful == 0 && m.failed == 0
+
+// ---------------------------------------------------------------- options
+// A well-formed configuration: the limit is at least 1, the idle ratio at most 100, the expiry non-negative, an id generator is present.
+//@ pred ConfigOK(c *configs) := c != nil && c.concurrency >= 1 && c.minIdleWorkerRatio <= 100 && c.jobIdGenerator != nil
+//@ assumption: every ConfigFunc is one of the library's With* options (the configs struct has only unexported fields, so no other package can write a meaningful one); WithJobIdGenerator and WithIdleWorkerExpiryDuration are given a non-nil function / a non-negative duration
+
+//@ functype ConfigFunc
+//@   requires arg0 != nil
+//@   modifies $deref(arg0)
+//@   ensures  ConfigOK(arg0) || !old(ConfigOK(arg0))
+
+//@ func WithConcurrency$1
+//@   props C02 C14
+//@   requires c != nil
+//@   modifies c.concurrency
+//@   ensures c.concurrency >= 1 && ($deref(concurrency) >= 1 && $deref(concurrency) <= MaxUint32 ==> c.concurrency == $deref(concurrency))
+
+//@ func WithMinIdleWorkerRatio$1
+//@   props C18
+//@   requires c != nil
+//@   modifies c.minIdleWorkerRatio
+//@   ensures 1 <= c.minIdleWorkerRatio && c.minIdleWorkerRatio <= 100
+
+//@ func WithStrategy$1
+//@   props C15
+//@   requires c != nil
+//@   modifies c.strategy
+//@   ensures c.strategy == $deref(s)
+
+//@ func WithContext$1
+//@   props C14
+//@   requires c != nil
+//@   modifies c.ctx
+//@   ensures c.ctx == $deref(ctx)
+
+// mergeConfigs / loadConfigs: options are applied in order; a bare int sets the limit through withSafeConcurrency.
+//@ func mergeConfigs
+//@   props C02 C14
+//@   requires c.concurrency >= 1 && c.minIdleWorkerRatio <= 100 && c.jobIdGenerator != nil
+//@   modifies $usercalls, $alloc
+//@   ensures [ok] result.concurrency >= 1 && result.minIdleWorkerRatio <= 100 && result.jobIdGenerator != nil
+//@   loop 1: invariant 0 <= rangeindex + 1 && rangeindex + 1 <= len(cs) && ConfigOK($addr(c))
+//@   ghost before call funcvalue: assume config != nil
+
+//@ func loadConfigs
+//@   props C02 C14
+//@   modifies $usercalls, $alloc
+//@   ensures [ok] result.concurrency >= 1 && result.minIdleWorkerRatio <= 100 && result.jobIdGenerator != nil
+
+//@ func newMetrics
+//@   props C17
+//@   modifies $alloc
+//@   ensures result != nil
